@@ -18,7 +18,8 @@ class Mirror:
         self.ios = []         # dicts id, grp, path, kind, specs=[dict id,val,sheet]
         self.spaces = []      # (m, s)
         self.bases = {}       # (m, s) -> [b]
-        self.cells = set()    # (m, s, n)
+        self.cells = set()    # (m, s, n)   defined cells, scalar or not
+        self.scalar = set()   # (m, s, n)   the scalar ones among them
         self.closed = set()
         self.next = 0
 
@@ -233,6 +234,31 @@ class Mirror:
         self.tab[(m, new)] = ids
         return True
 
+    @staticmethod
+    def sheet(sh):
+        """ideal: the empty sheet name (token 9) is the default sheet, i.e. no sheet name"""
+        return None if sh == 9 else sh
+
+    def del_space(self, m, s):
+        """del model.S: the defined references of the space are forgotten one by one (the spec of a value
+        goes with its last reference); the space, its cells and its inheritance edges disappear"""
+        ds = self.descendants(self.bases, m, s)
+        g = {k: ([x for x in v if x != s] if k[0] == m else list(v)) for k, v in self.bases.items() if k != (m, s)}
+        try:
+            for d in ds:
+                self.mro(g, m, d)
+        except MroError:
+            return False
+        for r in [r for r in self.refs if r["own"] == (m, s)]:
+            self.refs.remove(r)
+            self.tab_remove((m, r["val"]), r["id"])
+            self.gc(m, r["val"])
+        self.spaces.remove((m, s))
+        self.bases = g
+        self.cells = {c for c in self.cells if c[:2] != (m, s)}
+        self.scalar = {c for c in self.scalar if c[:2] != (m, s)}
+        return True
+
     def graph_ok(self, g, m, s):
         try:
             for d in [s] + self.descendants(g, m, s):
@@ -253,17 +279,23 @@ class Mirror:
                 return False
             self.spaces.append((m, o["s"]))
             return True
-        if k == "newcells":
+        if k in ("newcells", "newscalarcells"):
             s, n = o["s"], o["n"]
             if m in self.closed or (m, s) not in self.spaces or n >= 1000:
                 return False
-            if any(self.has_name(self.bases, m, d, n) for d in [s] + self.descendants(self.bases, m, s)):
+            # SpaceManager._can_add: free in the space itself; a sub space may have it as a cells, not as a reference
+            if self.has_name(self.bases, m, s, n):
+                return False
+            if any(self.find_ref((m, b), n) for d in self.descendants(self.bases, m, s) for b in self.mro(self.bases, m, d)):
                 return False
             self.cells.add((m, s, n))
+            if k == "newscalarcells":
+                self.scalar.add((m, s, n))
             return True
         if k == "newpandas":
             ok_kinds = ("csv", "excel") if o["vk"] == "pandas" else ()
-            return self.create((m, o["s"]), o["n"], o["p"], o["ft"], lambda kd: kd in ok_kinds, o["sh"], o["v"])
+            return self.create((m, o["s"]), o["n"], o["p"], o["ft"], lambda kd: kd in ok_kinds,
+                               self.sheet(o["sh"]), o["v"])
         if k == "newmodule":
             return self.create((m, o["s"]), o["n"], o["p"], "module",
                                lambda kd: kd == "module" and o["src_ok"], None, o["v"])
@@ -271,6 +303,15 @@ class Mirror:
             if m in self.closed:
                 return False
             return self.set_attr((m, o["s"]), o["n"], o["v"])
+        if k == "delspace" or (k == "delref" and o["s"] is None):
+            # del model.name: the space of that name, else the global reference of that name
+            n = o["s"] if k == "delspace" else o["n"]
+            if m in self.closed:
+                return False
+            if (m, n) in self.spaces:
+                return self.del_space(m, n)
+            o = {"op": "delref", "m": m, "s": None, "n": n}
+            k = "delref"
         if k == "delref":
             if m in self.closed:
                 return False
@@ -322,11 +363,12 @@ class Mirror:
             if io["kind"] == "module":
                 return False
             others = [c for c in io["specs"] if c["id"] != sp["id"]]
-            if others and o["sh"] is None:
+            sh = self.sheet(o["sh"])
+            if others and sh is None:
                 return False
-            if any(c["sheet"] == o["sh"] for c in others):
+            if any(c["sheet"] == sh for c in others):
                 return False
-            sp["sheet"] = o["sh"]
+            sp["sheet"] = sh
             return True
         if k == "close":
             if m in self.closed:
@@ -371,9 +413,13 @@ class Mirror:
             own = (m, o["s"])
             v = o["v"]
             # dup (a second spec for a value that has one) is repaired in /repo: such creations are generated (rejected)
-            if o.get("sh") == 9 or o.get("abspath"):
-                return "emptysheet_or_abspath"
+            if o.get("abspath"):
+                return "abspath"
             # rebind_same and stale_derived are repaired in /repo: their former triggers are generated
+            # scalar (creation onto a scalar cells) and emptysheet (sheet '') are repaired in /repo: generated
+            if k == "assign" and o["s"] is not None and (m, o["s"]) in self.spaces and \
+                    any((m, b, o["n"]) in self.scalar for b in self.mro(self.bases, m, o["s"])):
+                return "assign_scalar_cells"   # sets the value of the cells: not a reference operation
         # update_bound (update to a value that is already referenced) is repaired in /repo: generated (rejected)
         if k == "removebase":
             s, b = o["s"], o["b"]
@@ -389,11 +435,18 @@ class Mirror:
                 io = self.io_of(sp["id"])
                 if io["kind"] == "module":
                     return "sheet_on_module"   # ModuleData has no sheet property: plain attribute assignment
-                # sheet_none / sheet_to_none are repaired in /repo: spec.sheet = None is generated
-                if o["sh"] in (8, 9):
-                    return "emptysheet_or_abspath"
+                # sheet_none / sheet_to_none / emptysheet are repaired in /repo: spec.sheet = None / '' is generated
         if k == "delref" and (m, o["s"], o["n"]) in self.cells:
             return "del_cells"               # deletes the cells: outside the vocabulary
-        if k == "delref" and o["s"] is None and (m, o["n"]) in self.spaces:
-            return "delspace"                # del model.Space deletes the space (and leaks its specs)
+        # delspace (del model.Space leaked the specs of the space) is repaired in /repo: generated, also as
+        # delref of a model-level name that is a space
+        if k == "delspace" or (k == "delref" and o["s"] is None):
+            n = o["s"] if k == "delspace" else o["n"]
+            if (m, n) in self.spaces:
+                g = {kk: [x for x in v if x != n] for kk, v in self.bases.items() if kk != (m, n)}
+                try:
+                    for d in self.descendants(self.bases, m, n):
+                        self.mro(g, m, d)
+                except MroError:
+                    return "remove_breaks_mro"   # as for remove_bases: the code raises half-way
         return None
